@@ -10,35 +10,41 @@ From Coq Require Import List Bool ZArith.
 Import ListNotations.
 From GS Require Import Launch.ChildIR Launch.ChildSeq.
 From Gen Require Import ChildSrcGen ChildSrcBase Tier.
-From Gen Require PF_fd PL_loops PX_sh_c04 PX_sh_c05 PX_sh_c16 PX_sh_c07_calls PX_sh_c07_refusal PX_sh_c07_gate.
+From Gen Require PF_fd PL_loops PX_sh_calls PX_sh_c07_refusal PX_sh_c07_gate.
 From Gen Require Sh0 Sh1 Sh2 Sh3 Sh4 Sh5 Sh6 Sh7 Sh8 Sh9 Sh10 Sh11 Sh12 Sh13 Sh14 Sh15.
 
 (* "@SHARDS:lemma@" is replaced by lib/srcthm.py with one  destruct H as [<-|H]; [exact Sh<k>.lemma |]  per shard of the tier, in the
    order of the list of prefixes *)
 
+(** one evaluation per configuration serves the four parts of the sequence *)
+Lemma all_calls : forall a b, (In a (all_bits 12) /\ In b DB_calls) \/ (In a ends_A /\ In b (all_bits 9)) -> on_opt check_calls_all (mk a b) = true.
+Proof. intros a b [[Ha Hb]|[Ha Hb]]; [| exact (cross_ok_spec _ PX_sh_calls.sh_calls a b Ha Hb)]. revert a b Ha Hb. apply combine16. intros pre H; cbv [all_bits map app In] in H. @SHARDS:sh_calls@ destruct H. Qed.
+Lemma calls_part keep a b : In keep parts -> on_opt check_calls_all (mk a b) = true -> on_opt (check_calls_on keep) (mk a b) = true.
+Proof. destruct (mk a b) as [f|]; cbn [on_opt]; [intros Hk H; exact (check_calls_all_spec f H keep Hk) | intros _ H; exact H]. Qed.
+
 (** C04: the calls that set up identity, privileges, filter, session, names, working directory, cgroup namespace and
     tracing, and the clone flags, are those of the specification [child_calls], in its order *)
 Theorem C04_source_issues_specified_calls :
   forall a b, (In a (all_bits 12) /\ In b DB_calls) \/ (In a ends_A /\ In b (all_bits 9)) -> on_opt (check_calls_on k04) (mk a b) = true.
-Proof. intros a b [[Ha Hb]|[Ha Hb]]; [| exact (cross_ok_spec _ PX_sh_c04.sh_c04 a b Ha Hb)]. revert a b Ha Hb. apply combine16. intros pre H; cbv [all_bits map app In] in H. @SHARDS:sh_c04@ destruct H. Qed.
+Proof. intros a b H. apply (calls_part k04); [cbv [parts In]; tauto | exact (all_calls a b H)]. Qed.
 Print Assumptions C04_source_issues_specified_calls.
 
 (** C05: the mounts around the caller's list (private root, tmpfs root, pivot, read-only root) *)
 Theorem C05_source_issues_specified_calls :
   forall a b, (In a (all_bits 12) /\ In b DB_calls) \/ (In a ends_A /\ In b (all_bits 9)) -> on_opt (check_calls_on k05) (mk a b) = true.
-Proof. intros a b [[Ha Hb]|[Ha Hb]]; [| exact (cross_ok_spec _ PX_sh_c05.sh_c05 a b Ha Hb)]. revert a b Ha Hb. apply combine16. intros pre H; cbv [all_bits map app In] in H. @SHARDS:sh_c05@ destruct H. Qed.
+Proof. intros a b H. apply (calls_part k05); [cbv [parts In]; tauto | exact (all_calls a b H)]. Qed.
 Print Assumptions C05_source_issues_specified_calls.
 
 (** C16: a traced child asks to die with its launcher and looks for it, before it syncs or stops *)
 Theorem C16_source_issues_specified_calls :
   forall a b, (In a (all_bits 12) /\ In b DB_calls) \/ (In a ends_A /\ In b (all_bits 9)) -> on_opt (check_calls_on k16) (mk a b) = true.
-Proof. intros a b [[Ha Hb]|[Ha Hb]]; [| exact (cross_ok_spec _ PX_sh_c16.sh_c16 a b Ha Hb)]. revert a b Ha Hb. apply combine16. intros pre H; cbv [all_bits map app In] in H. @SHARDS:sh_c16@ destruct H. Qed.
+Proof. intros a b H. apply (calls_part k16); [cbv [parts In]; tauto | exact (all_calls a b H)]. Qed.
 Print Assumptions C16_source_issues_specified_calls.
 
 (** C07: the start of the child, the exchange over the sync socket and the exec *)
 Theorem C07_source_issues_specified_calls :
   forall a b, (In a (all_bits 12) /\ In b DB_calls) \/ (In a ends_A /\ In b (all_bits 9)) -> on_opt (check_calls_on k07) (mk a b) = true.
-Proof. intros a b [[Ha Hb]|[Ha Hb]]; [| exact (cross_ok_spec _ PX_sh_c07_calls.sh_c07_calls a b Ha Hb)]. revert a b Ha Hb. apply combine16. intros pre H; cbv [all_bits map app In] in H. @SHARDS:sh_c07_calls@ destruct H. Qed.
+Proof. intros a b H. apply (calls_part k07); [cbv [parts In]; tauto | exact (all_calls a b H)]. Qed.
 Print Assumptions C07_source_issues_specified_calls.
 
 (** C07: whichever call of the child fails, the failure is reported with its location and the program never runs
